@@ -3,8 +3,8 @@
 usage: record_seeds.py CNN k 'C03=how;C04=how' ['note']"""
 import json, os, shutil, sys
 pid, k, det = sys.argv[1], sys.argv[2], sys.argv[3]
-note = sys.argv[4] if len(sys.argv) > 4 else None
-src = "/tmp/seed/out_%s/%s" % (pid.lower(), k)
+note = (sys.argv[4] or None) if len(sys.argv) > 4 else None
+src = sys.argv[5] if len(sys.argv) > 5 else "/tmp/seed/out_%s/%s" % (pid.lower(), k)
 dst = "/verif/seeded/%s-%s" % (pid, k)
 os.makedirs(dst, exist_ok=True)
 for f in os.listdir(src):
